@@ -51,7 +51,7 @@ def generate(seed, tier="quick"):
         # several dimensions: samplers of a Levy-copula chain (scenarios.c02nd)
         from . import c02nd
 
-        proc = c02nd.enlarge(c02nd.generate_process(r), r)
+        proc = c02nd.credit_grid(c02nd.enlarge(c02nd.generate_process(r), r), r)
         ops, ncopies = [], 1
         for _ in range(r.choice([30, 60])):
             k = r.random()
@@ -192,6 +192,16 @@ def execute(wd, sc):
     pool = [0.0, 1.0 - 2.0 ** -53, 2.0 ** -40, 0.5]
     for _ in range(4):
         pool.append(ur.random())
+    # the point where the sampler changes from the left to the right half-axis: the total probability of a left jump, as
+    # the sampler itself holds it (bit for bit) when it exposes it, else as cumulated here - and its two neighbours
+    pl = getattr(process.sampling, "_proba_left_axis", None)
+    try:
+        pl = float(pl) if pl is not None else float(cum[origin - 1]) if origin >= 1 else None
+    except Exception:
+        pl = None
+    if pl is not None and 0.0 < pl < 1.0:
+        pool[5], pool[6], pool[7] = pl, float(np.nextafter(pl, 0.0)), float(np.nextafter(pl, 1.0))
+        wd.probes["c02.left_right_change_point_in_pool"] += 1
     for _ in range(6):
         c = float(cum[ur.randrange(len(cum))])
         pool.append(min(1.0 - 2.0 ** -53, max(0.0, c + ur.choice([-1e-12, 1e-12, -1e-9, 1e-7]))))
